@@ -718,9 +718,20 @@ class CallMixin:
                 self.assume(z3.ForAll([k], z3.Implies(z3.Select(has, k), z3.And(
                     w(k) >= 0, w(k) < n, at(None, w(k), True), at(node.key, w(k)) == k, z3.Select(get, k) == at(node.value, w(k))))))
                 self.assume(z3.ForAll([k, i], z3.Implies(z3.And(z3.Select(has, k), i > w(k), i < n, at(None, i, True)), at(node.key, i) != k)))
+            def inst(kk):
+                # the witness axiom at one looked-up key: saves the solver an instantiation it often does not find in time
+                return z3.Implies(z3.Select(has, kk), z3.And(
+                    w(kk) >= 0, w(kk) < n, at(None, w(kk), True), at(node.key, w(kk)) == kk, z3.Select(get, kk) == at(node.value, w(kk))))
         finally:
             self.specmode -= 1
-        return SDict(has, get)
+
+        def inst_spec(kk):
+            self.specmode += 1
+            try:
+                return inst(kk)
+            finally:
+                self.specmode -= 1
+        return SDict(has, get, inst_spec)
 
     def e_SetComp(self, fr, node):
         """{elt(x) for x in seq [if cond(x)]}: membership = exists an index; the element sequence is remembered"""
